@@ -9,6 +9,8 @@ MUT = [
  ("m04-readfull-to-read", "C01", "git/batch_obj_iter.go", "if _, err := io.ReadFull(f, data); err != nil {", "if _, err := f.Read(data); err != nil {"),
  ("m05-no-replace-objects-dropped", "C13", "git/git.go", '\t\t"--no-replace-objects",\n\t\t"-c", "core.useReplaceRefs=false",\n', ""),
  ("m06-graft-file-not-disabled", "C13", "git/git.go", '\t\t"GIT_GRAFT_FILE="+os.DevNull,\n', ""),
+ ("m34-for-each-ref-limited-to-three-namespaces", "C06", "git/ref_iter.go", '\t\t\t\t"--format=%(objectname) %(objecttype) %(objectsize) %(refname)",\n', '\t\t\t\t"--format=%(objectname) %(objecttype) %(objectsize) %(refname)",\n\t\t\t\t"refs/heads", "refs/tags", "refs/remotes",\n'),
+ ("m35-rev-list-no-walk-unsorted-for-tags", "C01", "git/obj_iter.go", '"rev-list", "--objects", "--stdin", "--date-order"', '"rev-list", "--objects", "--stdin", "--date-order", "--no-object-names", "--max-parents=2"'),
  ("m07-depth-as-sum", "C03", "sizes/sizes.go", "\ts.MaxAncestorDepth.AdjustMaxIfNecessary(s2.MaxAncestorDepth)", "\ts.MaxAncestorDepth.Increment(s2.MaxAncestorDepth)"),
  ("m08-path-separator-not-counted", "C04", "sizes/sizes.go", "(counts.NewCount32(uint64(len(filename))) + 1).Plus(s2.MaxPathLength)", "(counts.NewCount32(uint64(len(filename))) + 0).Plus(s2.MaxPathLength)"),
  ("m10-wait-error-ignored", "C10", "git/obj_iter.go", "\t\treturn missingHeader, false, iter.p.Wait()", "\t\t_ = iter.p.Wait()\n\t\treturn missingHeader, false, nil"),
